@@ -286,6 +286,11 @@ class Oracle:
             return " ".join(["arek"] + ["%s=%d" % (k, 1 if k in self.st else 0) for k in sorted(set(keys))]), nothing
         if v == "issw":
             return "issw %d" % (1 if ex else 0), nothing
+        if v == "compact":
+            # CompactSwamp rewrites the file of an existing swamp; records are untouched
+            if ex is UNKNOWN:
+                return None, None
+            return ("compact ok" if ex else "err:FailedPrecondition"), nothing
         if v == "inc":
             return self._inc(f, now_tok)
         if v == "push":
@@ -416,7 +421,7 @@ class Oracle:
             self.st, self.complete = {}, True
 
 
-READ_ONLY = ("get", "getall", "gbk", "count", "iske", "arek", "issw", "size", "hasval")
+READ_ONLY = ("get", "getall", "gbk", "count", "iske", "arek", "issw", "size", "hasval", "compact")
 
 
 def check_case(ops, impl, skip_lines=(), stats=None):
